@@ -215,4 +215,5 @@ func runC05(cw *caseWriter, tier string, seed uint64) {
 	// the current-term rule lives in setupLeaderState + the leader loop: leader sequences (with the C05 monitor)
 	c08gen(cw, tier, &rng{s: seed*17 + 1})
 	runC102(cw, tier, seed, 2)
+	runC104(cw, tier, seed, 2) // snapshot transfer inside the composed cluster system (Model/ClusterSnap.v)
 }
